@@ -234,4 +234,25 @@ CHECKS = {
         "design_ref": "DESIGN.md section 4, C08",
         "min_obs": {"handshakes": 500, "key_lookups": 2000, "skews_checked": 1000},
     },
+    "C10": {
+        "scenarios": [("C10-server", "vsim"), ("C10-client", "vsim"), ("C10-socks", "vreal"), ("C05-probe", "vsim", 0.25)],
+        "rides_on": ["C10"],
+        "side_only": False,
+        "rule": "per case 250 (quick) / 1500 (thorough) segments built by the reference codec with the valid credential of user bob: all "
+                "protocol types incl. undefined and wrong-direction ones, session ids {0, own, the live session of user alice, random}, "
+                "seq/ack/window/fragment extremes, length fields inconsistent with the real sizes, invalid low-entropy fields, stale "
+                "minute stamps, truncated and over-long datagrams, duplicates, open/close storms; on both transports against the server, "
+                "and - the generator playing server - against the real client; SOCKS5: grammar-based hostile greetings, requests, "
+                "user/password sub-negotiations, UDP-associate frames and datagrams, replies of a hostile upstream proxy and egress "
+                "proxy, the UDP associate wrapper; the endpoint runs in the case's child process: any panic/fatal error kills the batch "
+                "and is reported with the write-ahead logged case; an unrelated user's canary transfer must complete afterwards",
+        "technique": "runtime monitor: child-process liveness + canary under generated hostile authenticated traffic (reference-codec "
+                     "driven) and SOCKS5 byte-string fuzzing, every case logged before execution",
+        "text": "Crash freedom is shown for the generated language only; generators are aimed at every panic site and parser in the "
+                "anchored files. No coverage feedback is available for this stateful multi-party target.",
+        "note": "trusted: the driver's crash detection (missing batch-complete marker + panic text in the child's stderr)",
+        "design_ref": "DESIGN.md section 4, C10",
+        "min_obs": {"hostile_messages": 10000, "canary_completed": 20, "hostile_exchanges": 500},
+        "timeout": {"quick": 900, "thorough": 14000},
+    },
 }
